@@ -988,6 +988,13 @@ fn union_single_and_range(
             }
             let mut indices = indicies.iter().collect::<Vec<_>>();
             indices.sort();
+            if indices.is_empty() {
+                // an empty string together with an inverted range: no character at all
+                return Err(GrammarError::new(
+                    &format!("Empty character set for values {v:?} and {min:?}..{max:?}"),
+                    GrammarErrorType::UnpackingError,
+                ));
+            }
             let mut last = indices[0];
             let mut contiguous = true;
             for v in indices[1..].iter() {
